@@ -215,10 +215,10 @@ def build_native(ll, wd, entry, asan=False):
     return exe
 
 
-def build_watch_native(ll, wd, entry, mod, gsyms):
+def build_watch_native(ll, wd, entry, mod, gsyms, at_entry=False):
     """native build in which the named globals sit alone on write-protected pages while the harness has the
     shared-state watch on: a store to one of them is reported as CHECK lock.discipline.<name> 0 (rt/vf_native.c)"""
-    tag = _h(",".join(sorted(gsyms)))[:8]
+    tag = _h(",".join(sorted(gsyms)), at_entry)[:8]
     exe = os.path.join(wd, "%s.watch-%s.exe" % (entry, tag))
     if os.path.exists(exe):
         return exe
@@ -258,10 +258,11 @@ def build_watch_native(ll, wd, entry, mod, gsyms):
     txt += "@vf_watch_names = global [%d x i8*] [%s]\n" % (n, ", ".join(names))
     ll2 = os.path.join(wd, "%s.watch-%s.ll" % (entry, tag))
     open(ll2, "w").write(txt)
-    obj = os.path.join(wd, entry + ".vfn.watch.o")
-    P.run(["clang-14", "-O1", "-I" + os.path.join(ROOT, "rt"), "-DVF_ENTRY=" + entry, "-DVF_WATCH_TABLE", "-c",
+    obj = os.path.join(wd, "%s.vfn.watch-%s.o" % (entry, tag))
+    P.run(["clang-14", "-O1", "-I" + os.path.join(ROOT, "rt"), "-DVF_ENTRY=" + entry, "-DVF_WATCH_TABLE"] + (["-DVF_WATCH_AT_ENTRY"] if at_entry else []) + ["-c",
            os.path.join(ROOT, "rt", "vf_native.c"), "-o", obj])
-    P.run(["clang++-14", "-O1", "-Wno-override-module", ll2, obj, os.path.join(ROOT, "rt", "vf_native_cxx.cpp"),
+    # -O0: the IR is what engine B executed; a later pass must not fold the watched stores away
+    P.run(["clang++-14", "-O0", "-Wno-override-module", ll2, obj, os.path.join(ROOT, "rt", "vf_native_cxx.cpp"),
            "-o", exe + ".tmp", "-lm", "-lpthread"])
     os.rename(exe + ".tmp", exe)
     return exe
@@ -528,7 +529,8 @@ def _run_one(o, mod, dem, ll, wd, tier, seed, R, log, irsym):
         how = "native replay of the slice"
         if c.get("kind") == "lock" and c.get("gsym"):
             # deterministic confirmation: the variable sits on a write-protected page while the watch is on
-            wexe = build_watch_native(ll, wd, o.entry, mod, [x["gsym"] for x in res.cex if x.get("gsym")])
+            wexe = build_watch_native(ll, wd, o.entry, mod, [x["gsym"] for x in res.cex if x.get("gsym")],
+                                      at_entry=opts.get("only_lock") == "1")
             if wexe:
                 nat = run_native(wexe, vec, wd, "cexw")
                 failing = [l for l in nat["lines"] if l[1] == c["label"] and l[2] == 0]
